@@ -7,6 +7,7 @@ use ckb_proposal_table::{ProposalTable, ProposalView};
 use ckb_store::ChainStore;
 use ckb_types::core::{BlockView, UncleBlockView};
 use ckb_types::packed::ProposalShortId;
+use ckb_types::prelude::Entity as _;
 use hx_common::*;
 use serde_json::{json, Value};
 use std::collections::{BTreeMap, BTreeSet, HashSet};
@@ -148,7 +149,59 @@ pub fn run(seed: u64, thorough: bool, out_dir: &std::path::Path, scratch: &std::
         };
         for _ in 0..nsteps {
             let tip = node.tip().number();
-            match rng.below(12) {
+            match rng.below(13) {
+                12 if tip >= 2 => {
+                    // a reorganisation that is abandoned: a competing branch with other proposals catches up with
+                    // the tip (stored as side blocks), its next block would take over but breaks a rule (DAO field);
+                    // the view must still be the window over the unchanged main chain, now and after the next block
+                    let back = rng.range(1, 6);
+                    let h = rng.range(tip.saturating_sub(back), tip - 1);
+                    let builder = Node::temp(&consensus);
+                    let snap = node.shared.snapshot();
+                    for n in 1..=h {
+                        let b = snap.get_block(&snap.get_block_hash(n).unwrap()).unwrap();
+                        builder.process(&b).expect("replay on builder");
+                    }
+                    let tip_before = node.tip().hash();
+                    let mut ok = true;
+                    for i in 0..(tip - h) {
+                        let plan = BlockPlan { proposals: gen_props(&mut rng, &mut next_id, &mut recent_ids), ts_delta: rng.range(1, 2000), nonce: 5150 + i as u128, ..Default::default() };
+                        let b = build_block(&builder, &plan);
+                        builder.process(&b).expect("builder accepts own block");
+                        if node.process(&b).is_err() || node.tip().hash() != tip_before { ok = false; break; }
+                    }
+                    if ok {
+                        let plan = BlockPlan { proposals: gen_props(&mut rng, &mut next_id, &mut recent_ids), ts_delta: rng.range(1, 2000), nonce: 5199, ..Default::default() };
+                        let good = build_block(&builder, &plan);
+                        let mut dao = good.dao().raw_data().to_vec();
+                        dao[24] ^= 1;
+                        let hdr = good.header().as_advanced_builder().dao(ckb_types::packed::Byte32::from_slice(&dao).unwrap()).build();
+                        let bad = good.as_advanced_builder().header(hdr).build_unchecked();
+                        let r = node.process(&bad);
+                        crate::node::note_history(&jops); jops.push(json!({"rejected_fork": {"from_height": h, "side_blocks": tip - h, "invalid_block_height": bad.number()}}));
+                        *out.stats.entry("rejected_forks".into()).or_default() += 1;
+                        if r.is_ok() || node.tip().hash() != tip_before {
+                            out.viol.push(json!({"what": "a branch whose overtaking block breaks a consensus rule (DAO field) moved the tip", "detail": {"history": jops}}));
+                            fail = true;
+                        } else {
+                            check(&node, "an abandoned reorganisation (the overtaking block was invalid)", &mut out, &jops, window);
+                            // the next block of the main chain
+                            let parent_no = node.tip().number();
+                            let plan = BlockPlan { proposals: gen_props(&mut rng, &mut next_id, &mut recent_ids), ts_delta: rng.range(1, 2000), ..Default::default() };
+                            let b = build_block(&node, &plan);
+                            if let Err(e) = node.process(&b) {
+                                out.viol.push(json!({"what": format!("a block built from the node's own snapshot was rejected: {e}"), "detail": {"history": jops}}));
+                                fail = true;
+                            } else {
+                                crate::node::note_history(&jops); jops.push(json!({"extend": {"height": b.number(), "proposals": union_ids(&b)}}));
+                                ops.push(MOp::Reorg(parent_no, vec![union_ids(&b)]));
+                                obs.push(check(&node, "an extension that follows an abandoned reorganisation", &mut out, &jops, window));
+                            }
+                        }
+                    }
+                    builder.stop();
+                }
+                12 => {}
                 10 | 11 if !stash.is_empty() => {
                     // switch back to a branch the node has left: its blocks were verified while they were on
                     // the main chain, so the attached part of this reorganisation starts with verified blocks
